@@ -68,6 +68,9 @@ func (w *W) cellOp(f *frame, key int, g *Term, p *Ptr, wd int, kind string, pos 
 				res = merge(a.g, cur, res)
 			}
 		}
+		// keep the step in the trace (the replay passes this program point), but it is neither a
+		// scheduling point nor does it carry state
+		w.op(f.t, key, g, opSpec{pos: pos, kind: kind, traced: true, effect: func(exec *Term) Value { return nil }})
 		return res, g
 	}
 	var en *Term
